@@ -88,7 +88,7 @@ func (w *WideQ) opts() Opts { return Opts{Wrapped: w.Wrapped} }
 
 var wideConstructs = []string{"filter", "case", "in-list", "between", "fn-args", "group", "group-having", "group-by-expr", "whole-agg", "join", "left-join", "parallel-join",
 	"hash-join", "cte", "cte-twice", "derived", "sel-sub", "sel-sub-root", "in-sub", "exists", "not-exists", "union", "union-all", "order-limit", "distinct", "nested-from", "star-sub", "like-is", "join-derived", "cte-join", "in-sub-root", "exists-outer", "having-agg",
-	"join-on-fn", "join-on-fn", "derived-cte", "join-derived-cte", "in-sub-cte", "sel-sub-cte", "exists-cte", "cte-union", "cte-nested"}
+	"join-on-fn", "join-on-fn", "join-unaliased", "join-unaliased", "derived-cte", "join-derived-cte", "in-sub-cte", "sel-sub-cte", "exists-cte", "cte-union", "cte-nested"}
 
 func genWide(t *rapid.T, only []string) *WideQ {
 	doc, sc := genC07Doc(t)
@@ -213,6 +213,14 @@ func genWideOn(t *rapid.T, doc map[string]any, sc *c07Schema, only []string) *Wi
 		// a boolean-valued call as a conjunct of ON (the only place where ON accepts a function)
 		w.Tpl = fmt.Sprintf("SELECT * FROM {T} x %s {T2} y ON x.%s %s y.%s AND {F@join-on-conjunct:TRUE}%s", rapid.SampledFrom([]string{"JOIN", "LEFT JOIN", "RIGHT JOIN", "PARALLEL JOIN", "PARALLEL LEFT JOIN", "INNER JOIN"}).Draw(t, "kw"),
 			k, rapid.SampledFrom([]string{"!=", "<", ">=", "<>", "="}).Draw(t, "jop"), c2, optWhere("w", "x."))
+		w.Unordered = true
+	case "join-unaliased":
+		// one side of the join carries no alias: its rows are merged as they are
+		if rapid.Bool().Draw(t, "leftside") {
+			w.Tpl = fmt.Sprintf("SELECT * FROM {T} %s {T2} y ON %s %s y.%s%s", rapid.SampledFrom([]string{"LEFT JOIN", "JOIN", "LEFT HASH_JOIN", "PARALLEL LEFT JOIN"}).Draw(t, "kw"), k, rapid.SampledFrom([]string{"=", "=", "<", "!="}).Draw(t, "jop"), c2, optWhere("w", ""))
+		} else {
+			w.Tpl = fmt.Sprintf("SELECT * FROM {T} x %s {T2} ON x.%s %s %s%s", rapid.SampledFrom([]string{"RIGHT JOIN", "JOIN", "RIGHT HASH_JOIN", "PARALLEL RIGHT JOIN"}).Draw(t, "kw"), k, rapid.SampledFrom([]string{"=", "=", ">", "!="}).Draw(t, "jop"), c2, optWhere("w", "x."))
+		}
 		w.Unordered = true
 	case "derived-cte":
 		w.Tpl = fmt.Sprintf("SELECT x.%s, x.w FROM (WITH c AS (SELECT %s, {F@cte-in-derived-table:%s} AS w FROM {T}%s) SELECT * FROM c) x", k, k, v, optWhere("w", ""))
